@@ -152,6 +152,10 @@ class Cutter:
             out.append(s)
         return out
 
+    def _prebind(self, k):
+        # a sidecar-declared variable that the code has not bound before the loop gets an arbitrary value of its declared kind
+        return ''.join("if '%s' not in locals(): %s = __vc.havoc(%d, '%s', locals())\n" % (m, m, k, m) for m in sorted(self.decls.get(k, ())))
+
     def _havocs(self, k, mods):
         # a variable the sidecar declares is given its declared kind even if it is not bound before the loop
         forced = set(self.decls.get(k, ()))
@@ -174,7 +178,7 @@ class Cutter:
         src = '''
 __rng{k} = __vc.loop_range({k}, {it})
 {tgt} = __vc.loop_lo(__rng{k})
-__vc.establish({k}, locals())
+{pre}__vc.establish({k}, locals())
 {hav}{tgt} = __vc.fresh_index({k})
 if __vc.nondet({k}):
     __vc.assume_iter({k}, __rng{k}, {tgt}, locals())
@@ -187,7 +191,7 @@ if __vc.nondet({k}):
 else:
     __vc.assume_done({k}, __rng{k}, {tgt}, locals())
     {tgt} = {tgt} - 1
-'''.format(k=k, it=ast.unparse(node.iter), tgt=tgt, hav=self._havocs(k, mods), unpack=unpack or 'pass')
+'''.format(k=k, it=ast.unparse(node.iter), tgt=tgt, hav=self._havocs(k, mods), unpack=unpack or 'pass', pre=self._prebind(k))
         new = ast.parse(textwrap.dedent(src)).body
         ifnode = new[-1]
         once = [n for n in ifnode.body if isinstance(n, ast.For)][0]
@@ -199,7 +203,7 @@ else:
             raise Unsupported('break inside a cut loop')
         mods = sorted(m for m in modified(node.body) if not m.startswith('__'))
         src = '''
-__vc.establish({k}, locals())
+{pre}__vc.establish({k}, locals())
 {hav}if __vc.nondet({k}):
     __vc.assume_inv({k}, locals())
     if not ({test}): __vc.end_path()
@@ -211,7 +215,7 @@ __vc.establish({k}, locals())
 else:
     __vc.assume_inv({k}, locals())
     if ({test}): __vc.end_path()
-'''.format(k=k, hav=self._havocs(k, mods), test=ast.unparse(node.test))
+'''.format(k=k, hav=self._havocs(k, mods), test=ast.unparse(node.test), pre=self._prebind(k))
         new = ast.parse(textwrap.dedent(src)).body
         ifnode = new[-1]
         once = [n for n in ifnode.body if isinstance(n, ast.For)][0]
